@@ -34,6 +34,7 @@ T2P = "clematis/engine/stages/t2/parallel.py"
 T2CFG = "clematis/engine/stages/t2/config.py"
 HYB = "clematis/engine/stages/hybrid.py"
 UMET = "clematis/engine/util/metrics.py"
+PAR = "clematis/engine/orchestrator/parallel.py"
 
 # ---------------------------------------------------------------------------------------------
 # features (gates): flag leaf, subtree prefix, leaves under the prefix NOT owned by the gate, artefacts
@@ -128,6 +129,7 @@ PREDICATES = {
     "_metrics_gate_on": (T2CFG, "metrics_gate_on"),
     "_t1_parallel_enabled": (T1, "_t1_parallel_enabled"),
     "_t2_parallel_enabled": (T2P, "t2_parallel_enabled"), "t2_parallel_enabled": (T2P, "t2_parallel_enabled"),
+    "_agents_parallel_enabled": (PAR, "_agents_parallel_enabled"),
 }
 
 
@@ -213,6 +215,9 @@ SITES: List[Tuple[str, str, str, tuple, List[str], List[str]]] = [
      _pref("t2.quality.mmr") + _pref("t2.quality.lexical") + _pref("t2.quality.normalizer") + _pref("t2.quality.aliasing")),
     ("t2.shadow_trace", T2Q, "apply_quality", ("call", "_emit_quality_trace", 0, None), ["rq_traces.jsonl"],
      ["t2.quality.shadow", "t2.quality.trace_dir", "t2.quality.redact"]),
+    # ---- agent batch driver: compute-then-commit path behind perf.parallel.{enabled,agents,max_workers} ----
+    ("agents.batch_path", PAR, "_run_agents_parallel_batch", ("call", "_make_readonly_snapshot", 0, None), [],
+     ["perf.parallel.max_workers", "perf.parallel.agents"]),
 ]
 
 # which feature each site is expected to be gated by (documented gate): checked by C02_gate_table_consistent
@@ -233,8 +238,10 @@ SITE_GATES.update({
     "t2.metrics.fusion": ["perf", "t2.quality"], "t2.metrics.mmr": ["perf", "t2.quality"],
     "t2.hybrid.rerank": ["t2.hybrid"], "hybrid.reorder": ["t2.hybrid"], "t2.quality.fuse": ["t2.quality"],
     "t2.quality.mmr": ["t2.quality"], "t2.quality.mmr_fallback_call": [], "t2.quality.mmr_work": ["t2.quality"],
-    "t2.shadow_trace": ["perf", "shadow"],
+    "t2.shadow_trace": ["perf", "shadow"], "agents.batch_path": ["perf.parallel"],
 })
+# configs/validate.py: "agents=true while perf.enabled=false; agent-level driver remains disabled (identity path)"
+EXPECTED_AGENTS_MASTER = ["agents.batch_path"]
 # call sites that are not themselves gated: the callee's early return carries the gate (listed as its own site)
 ADVISORY = ["t2.quality.mmr_fallback_call"]
 # documented but NOT implemented by the code (DESIGN §5 #9): the parallel predicates ignore perf.enabled
@@ -889,6 +896,9 @@ def gen(repo: Path):
     mp = [(site_names.index(n), leaf_id("perf.enabled")) for n in EXPECTED_MASTER]
     lines.append("/-- parallel fan-out sites vs. the perf master switch (documented, see DESIGN §5 #9). -/")
     lines.append("def parallelMaster : List (Nat × Nat) := [" + ", ".join(f"({a}, {b})" for a, b in mp) + "]")
+    ap = [(site_names.index(n), leaf_id("perf.enabled")) for n in EXPECTED_AGENTS_MASTER]
+    lines.append("/-- agent batch driver vs. the perf master switch (documented by the validator's own warning). -/")
+    lines.append("def agentsMaster : List (Nat × Nat) := [" + ", ".join(f"({a}, {b})" for a, b in ap) + "]")
     lines.append("")
     lines.append("end Clem.Gen.Gates")
     src = "\n".join(lines) + "\n"
